@@ -120,11 +120,13 @@ theorem decrypt_err_of_precheck (P : Prims) (name key iv ct : Bytes) (e : Err)
     simp only [ha] at h
     simp [h]
 
-/-- …and any other error of `decrypt` is "Invalid input" from a CBC algorithm. -/
+/-- …and any other error of `decrypt` is "Invalid input": a CBC input that is not a padded
+    multiple of the block size, or an AEAD input that does not authenticate. -/
 theorem decrypt_err_cases (P : Prims) (name key iv ct : Bytes) (e : Err)
     (h : decrypt P name key iv ct = .err e) :
     precheck name key iv = some e ∨
-      (precheck name key iv = none ∧ e = .invalidInput ∧ ∃ ks s, algOfDecrypt name = some (.cbc ks s)) := by
+      (precheck name key iv = none ∧ e = .invalidInput ∧
+        ∃ a, algOfDecrypt name = some a ∧ (a.isAead = true ∨ ∃ ks s, a = .cbc ks s)) := by
   unfold decrypt at h
   unfold precheck
   rw [tables_agree]
@@ -137,14 +139,15 @@ theorem decrypt_err_cases (P : Prims) (name key iv ct : Bytes) (e : Err)
     | none =>
       simp only [hs] at h
       right
-      cases a <;> simp [decryptWith, orPanic_ne_err] at h
+      cases a <;> simp [decryptWith, orPanic_ne_err, orInvalid_eq_err] at h
       case cbc ks s =>
-        refine ⟨hs, ?_, ks, s, rfl⟩
+        refine ⟨hs, ?_, _, rfl, Or.inr ⟨ks, s, rfl⟩⟩
         split at h
         · split at h
           · simp at h
           · simp at h; exact h.symm
         · simp at h; exact h.symm
+      all_goals exact ⟨hs, h.2, _, rfl, Or.inl rfl⟩
 
 /-! ## Padding -/
 
@@ -219,23 +222,23 @@ theorem decrypt_encrypt (P : Prims) (hL : P.Lawful) (name key iv pt c : Bytes)
         rw [if_neg (by rw [hl, hp]; simp), hL.cbc_rt ks key iv _ hk hi hp, unpadBlocks_pad]
       | siv128 =>
         simp only [encryptWith, orPanic_eq_ok] at h
-        simp only [decryptWith, orPanic_eq_ok]
+        simp only [decryptWith, orInvalid_eq_ok]
         exact hL.aead_rt _ key iv pt c rfl hk hi h
       | siv256 =>
         simp only [encryptWith, orPanic_eq_ok] at h
-        simp only [decryptWith, orPanic_eq_ok]
+        simp only [decryptWith, orInvalid_eq_ok]
         exact hL.aead_rt _ key iv pt c rfl hk hi h
       | chacha =>
         simp only [encryptWith, orPanic_eq_ok] at h
-        simp only [decryptWith, orPanic_eq_ok]
+        simp only [decryptWith, orInvalid_eq_ok]
         exact hL.aead_rt _ key iv pt c rfl hk hi h
       | xchacha =>
         simp only [encryptWith, orPanic_eq_ok] at h
-        simp only [decryptWith, orPanic_eq_ok]
+        simp only [decryptWith, orInvalid_eq_ok]
         exact hL.aead_rt _ key iv pt c rfl hk hi h
       | xsalsa =>
         simp only [encryptWith, orPanic_eq_ok] at h
-        simp only [decryptWith, orPanic_eq_ok]
+        simp only [decryptWith, orInvalid_eq_ok]
         exact hL.aead_rt _ key iv pt c rfl hk hi h
 
 /-- the same through `resolve` (algorithm name as written by the user, upper-cased on both sides). -/
@@ -359,13 +362,12 @@ theorem roundTripObs_model (P : Prims) (hL : P.Lawful) (hT : P.EncTotal) (alg ke
 
 /-! ## Panics of `decrypt` -/
 
-/-- `decrypt` panics exactly when, with a known name and right sizes, the AEAD rejects the
-    ciphertext (`.expect("key/iv sizes were already checked")`) or a keystream is exhausted. -/
+/-- `decrypt` panics exactly when, with a known name and right sizes, a keystream is exhausted
+    (not reachable with in-memory inputs); an input the AEAD rejects is an error, not a panic. -/
 theorem decrypt_panic_iff (P : Prims) (name key iv ct : Bytes) :
     decrypt P name key iv ct = .panic ↔
       ∃ a, algOfDecrypt name = some a ∧ checkSizes a key iv = none ∧
-        ((a.isAead = true ∧ P.aeadDec a key iv ct = none) ∨
-         (a.isKeystream = true ∧ P.keystream a key iv ct = none)) := by
+         (a.isKeystream = true ∧ P.keystream a key iv ct = none) := by
   unfold decrypt
   cases ha : algOfDecrypt name with
   | none => simp
@@ -374,33 +376,39 @@ theorem decrypt_panic_iff (P : Prims) (name key iv ct : Bytes) :
     | some e => simp [hs]
     | none =>
       simp only [hs]
-      cases a <;> simp [decryptWith, orPanic_eq_panic, Alg.isAead, Alg.isKeystream, hs]
+      cases a <;> simp [decryptWith, orPanic_eq_panic, orInvalid_ne_panic, Alg.isAead, Alg.isKeystream, hs]
       case cbc ks s =>
         split
         · split <;> simp
         · simp
 
-/-- CFB and CBC decryption of arbitrary bytes never panics (CBC: `ok` or "Invalid input"). -/
+/-- CFB, CBC and AEAD decryption of arbitrary bytes never panics. -/
 theorem decrypt_no_panic_cfb_cbc (P : Prims) (name key iv ct : Bytes) (a : Alg)
-    (ha : algOfDecrypt name = some a) (hne : a.isAead = false) (hnk : a.isKeystream = false) :
+    (ha : algOfDecrypt name = some a) (hnk : a.isKeystream = false) :
     decrypt P name key iv ct ≠ .panic := by
   intro h
-  obtain ⟨a', ha', _, h' | h'⟩ := (decrypt_panic_iff P name key iv ct).mp h
-  · rw [ha] at ha'; cases ha'; simp [hne] at h'
-  · rw [ha] at ha'; cases ha'; simp [hnk] at h'
+  obtain ⟨a', ha', _, h'⟩ := (decrypt_panic_iff P name key iv ct).mp h
+  rw [ha] at ha'; cases ha'; simp [hnk] at h'
 
-/-- "decrypting never panics", proved outside the finding class `D_aead_reject` (and with
-    keystreams that are not exhausted). -/
+/-- an AEAD algorithm with right-sized key and IV and an input it rejects: the error "Invalid input". -/
+theorem aead_reject_is_error (P : Prims) (name key iv ct : Bytes) (a : Alg)
+    (ha : algOfDecrypt name = some a) (haead : a.isAead = true)
+    (hs : checkSizes a key iv = none) (hrej : P.aeadDec a key iv ct = none) :
+    decrypt P name key iv ct = .err .invalidInput := by
+  unfold decrypt
+  simp only [ha, hs]
+  cases a <;> simp_all [decryptWith, orInvalid, Alg.isAead]
+
+/-- "decrypting never panics" (with keystreams that are not exhausted). The hypothesis on the AEAD
+    finding class of the pinned tree is gone: the defect was repaired. -/
 theorem noPanic_partial (P : Prims) (alg key iv ct : Bytes)
-    (hks : ∀ a, a.isKeystream = true → P.keystream a key iv ct ≠ none)
-    (hD : D_aead_reject P.upper alg key iv = false) :
+    (hks : ∀ a, a.isKeystream = true → P.keystream a key iv ct ≠ none) :
     NoPanicObs (decryptFn P alg key iv ct) = true := by
   unfold NoPanicObs decryptFn
   simp only [bne_iff_ne, ne_eq]
   intro h
-  obtain ⟨a, ha, hs, h' | h'⟩ := (decrypt_panic_iff P _ key iv ct).mp h
-  · simp [D_aead_reject, ha, hs, h'.1] at hD
-  · exact hks a h'.1 h'.2
+  obtain ⟨a, ha, hs, h'⟩ := (decrypt_panic_iff P _ key iv ct).mp h
+  exact hks a h'.1 h'.2
 
 /-! ## IP addresses -/
 
